@@ -1,0 +1,71 @@
+//go:build verif
+
+package bls
+
+// Read-only wrappers around unexported functions, compiled only with the build tag "verif".
+// Nothing here changes behaviour of the package.
+
+import (
+	"io"
+
+	math "github.com/IBM/mathlib"
+)
+
+// VerifCurve returns the curve the package computes on.
+func VerifCurve() *math.Curve { return c }
+
+func VerifLagrangeCoefficient(evaluatedAt int64, evaluationPoints ...int64) *math.Zr {
+	return lagrangeCoefficient(evaluatedAt, evaluationPoints...)
+}
+
+func VerifReconstruct(shares []*math.Zr, evaluationPoints ...int64) *math.Zr {
+	return Shares(shares).reconstruct(evaluationPoints...)
+}
+
+func VerifValueAt(polynomial []*math.Zr, x int) *math.Zr {
+	return Polynomial(polynomial).ValueAt(x)
+}
+
+func VerifGen(threshold, n int, rand io.Reader) ([]*math.Zr, []*math.Zr) {
+	p, s := (&SSS{Threshold: threshold}).Gen(n, rand)
+	return p, s
+}
+
+func VerifChooseKoutOfN(n, k int, f func([]int64)) { chooseKoutOfN(n, k, f) }
+
+func VerifLocalCreatePublicKeys(shares []*math.Zr) []*math.G2 {
+	return localCreatePublicKeys(Shares(shares))
+}
+
+func VerifLocalAggregatePublicKeys(pks []*math.G2, evaluationPoints ...int64) *math.G2 {
+	return localAggregatePublicKeys(pks, evaluationPoints...)
+}
+
+func VerifLocalAggregateSignatures(signatures []*math.G1, evaluationPoints ...int64) *math.G1 {
+	return localAggregateSignatures(signatures, evaluationPoints...)
+}
+
+func VerifLocalSign(sk *math.Zr, digest []byte) *math.G1 { return localSign(sk, digest) }
+
+func VerifLocalVerify(pk *math.G2, digest []byte, sig *math.G1) error {
+	return localVerify(pk, digest, sig)
+}
+
+// VerifAssembleThresholdPublicKey runs the cross-check of KeyGen (assembleThresholdPublicKey) on a fresh
+// instance whose parties are 'parties' and whose revealed public keys are rawPKs (same order).
+// It returns the serialized distinct threshold keys found and the serialized key KeyGen would store.
+func VerifAssembleThresholdPublicKey(parties []uint16, threshold int, rawPKs [][]byte) ([][]byte, []byte) {
+	tbls := &TBLS{parties: parties, threshold: threshold, publicKeysOfParties: make(map[uint16][]byte)}
+	for i, p := range parties {
+		tbls.publicKeysOfParties[p] = rawPKs[i]
+	}
+	combos, tpk := tbls.assembleThresholdPublicKey()
+	var distinct [][]byte
+	for _, k := range combos {
+		distinct = append(distinct, k.Bytes())
+	}
+	if tpk == nil {
+		return distinct, nil
+	}
+	return distinct, tpk.Bytes()
+}
